@@ -181,6 +181,7 @@ func runCheck(id, tier string, ignoreKnown, verbose bool) int {
 	var perObl []map[string]any
 	var samples []any
 	nProof := 0
+	engineErrors := 0
 	for _, o := range obls {
 		solverMs += o.Ms
 		rec := map[string]any{"name": o.Name, "result": o.Result, "backend": o.Backend, "ms": o.Ms, "clause": o.Text}
@@ -201,6 +202,11 @@ func runCheck(id, tier string, ignoreKnown, verbose bool) int {
 		}
 		if o.Result == "unsat" {
 			discharged++
+			continue
+		}
+		if o.Result == "error" {
+			fmt.Printf("ENGINE-ERROR: %s: solver rejected the query (%s): %s\n", o.Name, o.Backend, truncate(o.Output, 300))
+			engineErrors++
 			continue
 		}
 		if k := isKnown(o.Name); k != nil {
@@ -242,7 +248,7 @@ func runCheck(id, tier string, ignoreKnown, verbose bool) int {
 	if len(violations) > 0 {
 		exit = 1
 	}
-	if coverFail > 0 {
+	if coverFail > 0 || engineErrors > 0 {
 		exit = 2
 	}
 	if fl, ok := floor[id]; ok && nProof < fl {
@@ -265,10 +271,11 @@ func runCheck(id, tier string, ignoreKnown, verbose bool) int {
 		"seed":        seedFromEnv(),
 		"level":       "proof",
 		"coverage": map[string]any{
-			"obligations":              nProof,
-			"discharged":               discharged + len(knownSeen)*0,
+			"obligations":              nProof - len(knownSeen),
+			"discharged":               discharged,
 			"known_findings_seen":      nonNil(knownSeen),
-			"undischarged":             nProof - discharged,
+			"known_findings_note":      "obligations refuted by a recorded genuine defect (known_findings.txt) are listed here and are not counted under obligations/discharged",
+			"undischarged":             nProof - len(knownSeen) - discharged,
 			"checker_cmd":              fmt.Sprintf("bin/govc check %s --tier %s", id, tier),
 			"trusted_base":             g.trustedBase(),
 			"functions_under_contract": funcs,
